@@ -6,6 +6,10 @@ mod e2;
 #[cfg(all(feature = "hooks", not(feature = "conc")))]
 mod e4;
 mod evid;
+#[cfg(feature = "memchk")]
+mod e1mem;
+#[cfg(feature = "memchk")]
+mod memchk;
 mod mon;
 mod mon2;
 #[cfg(all(feature = "conc", feature = "hooks"))]
@@ -15,6 +19,10 @@ mod pmodel;
 mod pexplore;
 mod progs;
 mod props;
+
+#[cfg(feature = "memchk")]
+#[global_allocator]
+static ALLOC: memchk::Quarantine = memchk::Quarantine;
 
 use std::io::Write;
 use std::process::{Command, Stdio};
@@ -82,6 +90,20 @@ fn main() {
             let stdout = std::io::stdout();
             let mut l = stdout.lock();
             writeln!(l, "WORKER-RESULT {s}").unwrap();
+        }
+        #[cfg(feature = "memchk")]
+        "case" => {
+            // run one recorded case in this process (the caller interprets a crash)
+            let p = path.unwrap_or_else(|| usage());
+            let v = evid::read_replay(std::path::Path::new(&p));
+            match e1mem::rerun(&v.case) {
+                Some(Some((oracle, msg, step))) => {
+                    println!("CASE-VIOLATION oracle={oracle} step={step}: {msg}");
+                    std::process::exit(1)
+                }
+                Some(None) => std::process::exit(0),
+                None => std::process::exit(2),
+            }
         }
         "replay" => {
             let p = path.unwrap_or_else(|| usage());
@@ -154,6 +176,25 @@ fn coordinator(id: &str, tier: &str) -> i32 {
                 }
             },
             None => {
+                #[cfg(feature = "memchk")]
+                if id == "C23" {
+                    // a worker that crashed (SIGSEGV, abort) under the monitoring allocator is a
+                    // finding about the case it was running, not a machinery failure
+                    if let Some(c) = e1mem::read_progress(w) {
+                        let name = c.pointer("/case/program/name").and_then(|x| x.as_str()).unwrap_or("?").to_string();
+                        let mut case = c.clone();
+                        case["engine"] = serde_json::json!("e1-mem");
+                        case["config"] = serde_json::json!("mem");
+                        viols.push(evid::Viol {
+                            property: "C23".into(),
+                            signature: format!("C23:crash:{name}"),
+                            what: format!("the process running this case died with {:?}", o.status),
+                            case,
+                        });
+                        e1mem::clear_progress(w);
+                        continue;
+                    }
+                }
                 eprintln!("MACHINERY: worker {w} died without a result (status {:?}); stdout tail: {}", o.status, text.lines().rev().take(5).collect::<Vec<_>>().join(" | "));
                 machinery_fail = true;
             }
